@@ -167,6 +167,37 @@ Theorem C16_urls_always_configured : forall c n carry, 1 <= n -> forall cs ix pr
 Proof. exact run_calls_urls_valid. Qed.
 Print Assumptions C16_urls_always_configured.
 
+(* getIndex with CONCURRENT callers (calls failing at the same time share the closure's
+   index): for every number of threads, every number of getIndex calls per thread and every
+   interleaving of the atomic steps AddInt64 / StoreInt64: the index is never negative,
+   exceeds n-1 by at most the number of callers that still owe their StoreInt64(index, 0),
+   every value returned is a configured URL index, and as soon as nobody is inside getIndex
+   the index is back in [0,n) — the state in which C16_failover_rotates & co. apply. *)
+Theorem C16_get_index_concurrent : forall n k sched s,
+  1 <= n -> gi_run n (gi_init k) sched = Some s ->
+  0 <= g_index s <= n - 1 + Z.of_nat (pending (g_pcs s)) /\
+  Forall (fun p => match p with GIdle (Some r) => ix_ok n r | _ => True end) (g_pcs s) /\
+  (pending (g_pcs s) = 0%nat -> ix_ok n (g_index s)).
+Proof. exact get_index_concurrent. Qed.
+Print Assumptions C16_get_index_concurrent.
+
+(* the LTS run by one thread alone is the sequential get_index of the theorems above *)
+Theorem C16_get_index_lts_sequential : forall n ix last, 1 <= n -> ix_ok n ix ->
+  exists sched s, gi_run n {| g_index := ix; g_pcs := [GIdle last] |} sched = Some s /\
+                  g_index s = fst (get_index ix n) /\
+                  g_pcs s = [GIdle (Some (snd (get_index ix n)))].
+Proof. exact get_index_solo. Qed.
+Print Assumptions C16_get_index_lts_sequential.
+
+(* a failover call that gets as far as n retries has tried every configured server (so a
+   call with retry >= n succeeds whenever some server is healthy) *)
+Theorem C16_failover_covers_all : forall c n ix cl u,
+  on_failure c = FRotate -> 1 <= n -> ix_ok n ix -> ix_ok n u ->
+  (Z.to_nat n < nattempts (handle c n ix cl))%nat ->
+  exists j, (0 < j <= Z.to_nat n)%nat /\ nth_error (attempts (handle c n ix cl)) j = Some u.
+Proof. exact handle_failover_covers. Qed.
+Print Assumptions C16_failover_covers_all.
+
 (* "Failover moves to ANOTHER configured server after each failure" is FALSE of the
    faithful model: every call starts at urls[0] (ClientContext.Init) while the index of
    the failover closure is shared by all calls; when that index is n-1 the first failure
@@ -394,4 +425,13 @@ Proof. vm_compute. repeat split; reflexivity. Qed.
 Example backoff_failover :
   let o := handle (new (failover_config 5 true 10 15)) 2 0 (mk_call None None []) in
   rev (ivs (fin o)) = [-10; 0; 10; 15; 15] /\ attempts o = [0; 1; 0; 1; 0; 1].
+Proof. vm_compute. repeat split; reflexivity. Qed.
+
+(* two failures racing at the wrap boundary: the index overshoots to n+1 while two callers
+   owe their Store, and is back at 0 when both have stored *)
+Example get_index_race :
+  (match gi_run 2 (gi_init 3) [0; 1; 2]%nat with
+   | Some s => g_index s = 3 /\ pending (g_pcs s) = 2%nat | None => False end) /\
+  (match gi_run 2 (gi_init 3) [0; 1; 2; 1; 2]%nat with
+   | Some s => g_index s = 0 /\ pending (g_pcs s) = 0%nat | None => False end).
 Proof. vm_compute. repeat split; reflexivity. Qed.
